@@ -573,6 +573,23 @@ def run(ctx: evid.Ctx) -> None:
                     jobs = [(ra, rb, a, b) for a, b in par.split(len(ha_set[ra]), 32)]
                 for loc in par.pmap(_pairs, jobs, ctx.seed):
                     evid.absorb(ctx, loc)
+        # length-3 histories over the reassembly operations x (<=2): a buffer handed from one session to another
+        reasm = {"client": ["recv_half", "recv_rest", "ext", "recv_resp1"], "server": ["recv_half", "recv_rest", "recv_ext", "recv_search"]}
+        h3 = {r: [h for h in histories(r, 3, reasm[r]) if len(h) == 3] for r in reasm}
+        h2 = {r: histories(r, 2, reasm[r]) for r in reasm}
+        miss = [(r, h) for r in reasm for h in h3[r] + h2[r] if (r, h) not in _X["alone"]]
+        with mp.get_context("fork").Pool(par.ncpu(), maxtasksperchild=1) as pool:
+            _X["alone"].update(dict(zip(miss, pool.map(alone, miss, chunksize=1))))
+        for ra, rb in role_pairs:
+            if ra == rb:
+                _X["hists"] = {ra: h3[ra], ra + "#b": h2[ra]}
+                _X["alone"].update({(ra + "#b", h): _X["alone"][(ra, h)] for h in h2[ra]})
+                jobs = [(ra, ra + "#b", a, b) for a, b in par.split(len(h3[ra]), 16)]
+            else:
+                _X["hists"] = {ra: h3[ra], rb: h2[rb]}
+                jobs = [(ra, rb, a, b) for a, b in par.split(len(h3[ra]), 16)]
+            for loc in par.pmap(_pairs, jobs, ctx.seed):
+                evid.absorb(ctx, loc)
         for gi in range(3):
             grp = {r: histories(r, 2, FOCUS[r][gi]) for r in OPS if "#" not in r}
             _X["hists"] = grp
